@@ -115,8 +115,10 @@ pub fn roundtrip_case() -> BoxedStrategy<CsrCase> {
 	// Attribute types x509-parser gives a typed decoding (challengePassword, index 0, must hold a
 	// string; unstructuredName likewise) get a well-typed value; a NULL there would be the
 	// caller's malformed attribute, not rcgen's output.
-	(gen::csr_spec(true, true, false), gen::key_spec(), proptest::collection::vec(gen::attr_spec(), 0..3), "[a-zA-Z0-9]{1,12}")
-		.prop_map(|(spec, key, mut attrs, pw)| {
+	(gen::csr_spec(true, true, false), gen::key_spec(), proptest::collection::vec(gen::attr_spec(), 0..3), "[a-zA-Z0-9]{1,12}", prop_oneof![3 => Just(vec![]), 1 => proptest::collection::vec(crate::props::c17::wide_arc(), 1..4)])
+		.prop_map(|(mut spec, key, mut attrs, pw, wide)| {
+			// attribute types and otherName type-ids with arcs from the whole u64 range
+			crate::props::c17::widen_arcs(&mut spec, &wide);
 			for a in attrs.iter_mut() {
 				if a.oid_idx as usize % mk::ATTR_OIDS.len() < 2 {
 					a.values = Hex(crate::der::enc_tlv(0x31, &crate::der::enc_tlv(0x0c, pw.as_bytes())));
